@@ -365,7 +365,9 @@ impl Ord for Uri {
 
 impl Hash for Uri {
 	fn hash<H: hash::Hasher>(&self, state: &mut H) {
-		self.parts().hash(state)
+		// Hash like the reference view: this type implements `Borrow` for the
+		// reference type, so both must hash identically.
+		self.as_uri_ref().hash(state)
 	}
 }
 
